@@ -2,7 +2,8 @@
 
 Proof: Props/C04.lean — laws proved on the evaluator model `Expr.eval` for every oracle family,
 context and scope (double negation, De Morgan, short-circuit, commutation of quiet operands,
-÷0, chain = conjunction, name / attribute case, ASCII letter case of text, date vs ISO, date parts,
+÷0, chain = conjunction, name / attribute case — per node and for WHOLE trees (`mapNames_case`,
+`same_lowered_names`: every identifier position respelled) —, ASCII letter case of text, date vs ISO, date parts,
 comprehension = filter∘map, any, :=).
 Tie: differential evaluator correspondence on well-typed expressions (type-directed random stream,
 all small expressions over a compact grammar, boundary transactions).
@@ -10,6 +11,7 @@ Oracle on the implementation alone: the same laws as metamorphic relations, plus
 comprehension / any / all / sum / len / next on the supplemental rows as the reference answer.
 """
 import ast
+import copy
 import datetime
 import json
 import math
@@ -90,6 +92,188 @@ def case_swapped(text):
             return None
     out = ast.unparse(ast.fix_missing_locations(CaseSwap(set()).visit(tree)))
     return out
+
+
+# ------------------------------------------------------------------ whole-tree identifier respelling (theorem `mapNames_case`)
+
+class Respell(ast.NodeTransformer):
+    """Respell IDENTIFIERS only — exactly the positions `Expr.mapNames` rewrites: every `Name.id` (variable / primitive /
+    data-source loads, `txn` / `field` / row receivers, function names, comprehension binders, walrus targets) and every
+    `Attribute.attr` (attributes and string-method names).  Constants (text operands, `row["key"]` subscripts) are left alone.
+    `spell(kind, ident)` gives the new spelling; the spellings are recorded in visit order (for the replay file)."""
+
+    def __init__(self, spell):
+        self.spell = spell
+        self.seq = []
+        self.kinds = {}
+
+    def _new(self, kind, ident):
+        new = self.spell(kind, ident)
+        self.seq.append(new)
+        if new != ident:
+            self.kinds[kind] = self.kinds.get(kind, 0) + 1
+        return new
+
+    def visit_Name(self, n):
+        kind = 'binder-or-walrus-target' if isinstance(n.ctx, ast.Store) else 'name'
+        return ast.copy_location(ast.Name(id=self._new(kind, n.id), ctx=n.ctx), n)
+
+    def visit_Call(self, n):
+        if isinstance(n.func, ast.Name):
+            n.func = ast.copy_location(ast.Name(id=self._new('function', n.func.id), ctx=n.func.ctx), n.func)
+        elif isinstance(n.func, ast.Attribute):
+            n.func.value = self.visit(n.func.value)
+            n.func.attr = self._new('method', n.func.attr)
+        else:
+            n.func = self.visit(n.func)
+        n.args = [self.visit(a) for a in n.args]
+        return n
+
+    def visit_Attribute(self, n):
+        n.value = self.visit(n.value)
+        n.attr = self._new('attribute', n.attr)
+        return n
+
+
+def random_case(r, ident):
+    return ''.join(c.upper() if r.random() < 0.5 else c.lower() for c in ident)
+
+
+def respelled(r, body, mode, seq=None):
+    """(new tree, recorded spellings, table-or-None, kinds touched).  Modes: 'upper', 'lower', 'table' (one random spelling per
+    identifier), 'each' (a random spelling per OCCURRENCE: a binder `X` may be used as `x`), 'seq' (replay of recorded spellings)."""
+    table = None
+    if mode == 'upper':
+        spell = lambda k, i: i.upper()
+    elif mode == 'lower':
+        spell = lambda k, i: i.lower()
+    elif mode == 'table':
+        table = {}
+        def spell(k, i):
+            if i not in table:
+                table[i] = random_case(r, i)
+            return table[i]
+    elif mode == 'each':
+        spell = lambda k, i: random_case(r, i)
+    else:
+        it = iter(seq)
+        spell = lambda k, i: next(it)
+    t = Respell(spell)
+    new = t.visit(copy.deepcopy(body))
+    return new, t.seq, table, t.kinds
+
+
+def ev_tree(body, txn, variables=None, ds=None):
+    """the real evaluator on an AST (no unparse / re-parse: `None`, `True`, `in` … are tokens, not identifiers, in TEXT)"""
+    def go():
+        from tally import expr_parser as EP
+        ctx = EP.TransactionContext.from_transaction(txn, variables, ROWS if ds is None else ds)
+        return EP.TransactionEvaluator(ctx).evaluate(body)
+    return exprs.impl_outcome(go)
+
+
+# every identifier position of the language, written out (BASE_TXN, NAME_VARS, ROWS)
+NAME_VARS = {'is_large': False, 'lbl': 'uber eats 123 seattle', 'half': 22.75, 'm0': []}
+NAME_POSITIONS = [
+    'amount + month + year + day + weekday', 'description + source', 'date', 'true and not false', 'lbl + description', 'half * 2 if is_large else half',
+    'txn.amount + txn.month + txn.year + txn.day + txn.weekday', 'txn.description + txn.source + txn.location', 'txn.date', 'txn.nope', 'txn.true',
+    'field.memo + field.type', 'field.description + field.source + field.location', 'field.amount', 'field.date', 'field.nope',
+    'exists(field.memo) and not exists(field.nope)', 'exists(nosuchvar)', 'exists(description, 1)',
+    'rows[0].item', 'rows[0].amount + orders[0].amount', 'len(rows) + len(orders) + len(empty)', 'rows[0]["item"]', 'rows[0].nope', 'amount.item', 'lbl.item',
+    '[r.item for r in rows if r.amount > 1]', '[x.item + y.item for x in rows for y in orders if x.amount > y.amount]',
+    '[r.item for r in rows if r.amount > 1 if r.item != "pen"]', '[[y.amount + x.amount for y in orders] for x in rows]',
+    'sum(r.amount for r in rows)', 'sum((r.amount for r in rows), 1)', 'sum((r.amount for r in rows), "a")', 'sum([r.amount for r in rows], half)',
+    'any(r.item == "pen" for r in rows)', 'all(r.amount > 0 for r in rows)', 'any([r.amount > 40 for r in rows])', 'all(rows)',
+    'next(r.item for r in rows if r.amount < 1)', 'next((r.item for r in empty), "none")', 'next(r for r in empty)', 'next(rows)', 'next(rows, 1)',
+    'min(r.amount for r in rows)', 'max(r.amount for r in rows)', 'min(amount, 3, month)', 'max(1, amount)', 'min([r.amount for r in rows])',
+    'max(empty)', 'min((r.amount for r in rows), 1)', 'len(r for r in rows)', 'exists(r for r in rows)', 'exists((r for r in rows), 1)',
+    'contains(r for r in rows)', 'abs(r for r in rows)', 'trim((r for r in rows))', 'nosuchfn(r for r in rows)',
+    '(m := [r.item for r in rows]) and len(m) == 3', 'len(m := [r.item for r in rows]) + len(m)', '(k := amount * 2) + k',
+    '(amount := 1) + amount + txn.amount', '[(k := r.amount) + k for r in rows]', 'any(r.amount == 3 for r in rows) and r.item',
+    '[r for r in rows][0].item', '[r for r in rows if r.amount < 1][0].item.upper()',
+    'description.lower()', 'description.upper().strip()', 'description.startswith("UBER")', 'description.endswith("tle")',
+    'description.replace("UBER", "x")', 'description.title()', 'description.startswith()', 'description.replace("a")', 'amount.lower()',
+    'rows[0].item.lower().startswith("b")', 'field.memo.lower()', 'txn.description.upper()',
+    'contains("uber")', 'contains(description, "EATS")', 'regex("uber\\s+eats")', 'normalized("ubereats")', 'anyof("zzz", "eats")', 'startswith("uber")',
+    'fuzzy("UBER EATS 123 Seatle")', 'extract("(\\d+)")', 'split(" ", 1)', 'substring(0, 4)', 'trim("  x ")', 'regex_replace(description, "[0-9]+", "#")',
+    'uppercase(source)', 'lowercase(source)', 'strip_prefix(description, "uber ")', 'strip_suffix(description, " seattle")', 'abs(0 - amount)',
+    'round(amount / 3, 1)', 'nosuchfn(1)', 'nosuchvar', 'len(m0) > 0 and m0[0].item == "x"', 'len(amount)', 'len()', 'sum()', 'any(rows, 1)',
+    '1 < amount < 100 <= year', '"2025-03-14" == date', 'date >= "2025-01-01" and month in [3, 4]', '"uber" in description and "x" not in source',
+    'not (amount > 10 or is_large)', '-amount + (0 - half) % 7 / 2', 'amount if description else month',
+]
+
+
+def name_case_items(r, quick):
+    items = [(t, evalcorr.BASE_TXN, NAME_VARS, ROWS, 'positions') for t in NAME_POSITIONS]
+    items += list(evalcorr.random_items(r, 700 if quick else 12000, ill=0.0, depth=3))
+    small = list(evalcorr.small_items(1))
+    items += r.sample(small, min(len(small), 300 if quick else 3000))
+    return items
+
+
+def name_case_run(r, items, modes=('upper', 'lower', 'table', 'each')):
+    """→ (property failures on the implementation alone, model-vs-implementation disagreements on the respelled trees,
+    mapNames-vs-NodeTransformer tree disagreements, stats)"""
+    from tally import expr_parser as EP
+    fails, corr_cases, corr_meta, tree_cases, tree_meta = [], [], [], [], []
+    stats = {'expressions': 0, 'respellings': 0, 'changed_positions': {}, 'outcomes': {}}
+    for text, txn, variables, ds, label in items:
+        try:
+            body = EP.parse_expression(text).body
+        except EP.ExpressionError:
+            continue
+        if not text.isascii():
+            continue
+        stats['expressions'] += 1
+        base = ev_tree(copy.deepcopy(body), txn, variables, ds)
+        key = 'ok' if 'ok' in base else (base['err'] if base['err'] == 'expr' else base['cls'])
+        stats['outcomes'][key] = stats['outcomes'].get(key, 0) + 1
+        cj = exprs.ctx_json(txn, variables, ds)
+        for mode in modes:
+            new, seq, table, kinds = respelled(r, body, mode)
+            if not any(kinds.values()):
+                continue
+            stats['respellings'] += 1
+            for k, v in kinds.items():
+                stats['changed_positions'][k] = stats['changed_positions'].get(k, 0) + v
+            got = ev_tree(copy.deepcopy(new), txn, variables, ds)
+            shown = ast.unparse(new)
+            if not same(base, got) and not (('ok' in base and exprs.nan_in(base['ok'])) and ('ok' in got and exprs.nan_in(got['ok']))):
+                fails.append({'class': 'name-case', 'expr': text, 'mode': mode, 'spellings': seq, 'respelled': shown, 'observed': base,
+                              'observed_respelled': got, 'txn': RC.jtxn(txn), 'variables': variables or {}, 'sources': 'ROWS' if ds else 'none'})
+            corr_cases.append({'expr': exprs.ast_json(new), 'ctx': cj, 'convert_py': False})
+            corr_meta.append((shown, got, text, mode))
+            if mode != 'each':
+                rename = mode if table is None else [[k, v] for k, v in table.items()]
+                tree_cases.append({'op': 'eval', 'dump': True, 'expr': exprs.ast_json(body), 'ctx': cj, 'oracle': [], 'rename': rename})
+                tree_cases.append({'op': 'eval', 'dump': True, 'expr': exprs.ast_json(new), 'ctx': cj, 'oracle': []})
+                tree_meta.append((text, mode, shown))
+    dis = []
+    n_corr = 0
+    for (shown, got, text, mode), m in zip(corr_meta, exprs.model_eval(corr_cases)):
+        if m.get('err') == 'unmodelled' or ('ok' in got and exprs.nan_in(got['ok'])):
+            continue
+        n_corr += 1
+        if not same(m, got):
+            dis.append({'expr': shown, 'respelling_of': text, 'mode': mode, 'model': {x: y for x, y in m.items() if x != 'scope'}, 'implementation': got})
+    outs = common.Driver().batch(tree_cases)
+    tree_dis = []
+    for k, (text, mode, shown) in enumerate(tree_meta):
+        a, b = outs[2 * k].get('dump'), outs[2 * k + 1].get('dump')
+        if a is None or a != b:
+            tree_dis.append({'expr': text, 'mode': mode, 'Expr.mapNames': a, 'NodeTransformer': b, 'respelled': shown})
+    stats['model_vs_impl'] = n_corr
+    stats['trees'] = len(tree_meta)
+    return fails, dis, tree_dis, stats
+
+
+def name_case_replay(ce):
+    from tally import expr_parser as EP
+    txn = RC.untxn(ce['txn'])
+    ds = ROWS if ce.get('sources') == 'ROWS' else {}
+    body = EP.parse_expression(ce['expr']).body
+    new, _, _, _ = respelled(None, body, 'seq', ce['spellings'])
+    return not same(ev_tree(copy.deepcopy(body), txn, ce.get('variables'), ds), ev_tree(new, txn, ce.get('variables'), ds))
 
 
 def law_failures(r, txn, variables, ds):
@@ -206,6 +390,67 @@ def _nonfinite(o):
     return v.get('t') == 'flt' and (v['v'] == 'nan' or math.isinf(common.bits_float(v['v'])))
 
 
+SHADOW = {'amount': 7, 'description': 'vardesc', 'month': 99, 'year': 1, 'day': 77, 'weekday': 9, 'source': 'VARSRC', 'rows': 5, 'orders': 6}
+NEAR = [(100.004, 100), (99.996, 100), (0.004, 0), (-0.004, 0), (0.1 + 0.2, 0.3), (1e-9, 0), (100.0049999, 100.005), (33.335, 33.33),
+        (2.675, 2.67), (1.0000000000000002, 1), (5e-324, 0), (1234567.891, 1234567.89), (100, 100.0), (0.30000000000000004, 0.3)]
+
+
+def resolution_items():
+    """(text, variables, python value): a user variable named like a transaction primitive or a data source wins over it
+    (documented order: comprehension / := scope, user variables, transaction primitives, data sources); a binder wins over both"""
+    out = []
+    for name, val in SHADOW.items():
+        out.append((name, {name: val}, val))
+        out.append((name.upper(), {name: val}, val))
+        out.append((f'{name} == {val!r}', {name: val}, True))
+        src = 'orders' if name == 'rows' else 'rows'
+        out.append((f'len([{name} for {name} in {src}])', {name: val}, len(ROWS[src])))
+        out.append((f'({name} := 3) + {name}', {name: val}, 6))
+    out.append(('amount + txn.amount', {'amount': 7}, None))          # txn.<name> still reads the transaction
+    return out
+
+
+def resolution_failures(txn):
+    fails = []
+    for text, vs, val in resolution_items():
+        if val is None:
+            val = 7 + txn['amount']
+        o = ev(text, txn, vs)
+        exp = {'ok': exprs.val_json(val)}
+        if not same(o, exp):
+            fails.append({'class': 'name-resolution-order', 'expr': text, 'variables': vs, 'observed': o, 'required': exp, 'txn': RC.jtxn(txn)})
+    return fails
+
+
+def near_items():
+    out = []
+    for x, y in NEAR:
+        for op in ('==', '!=', '<', '<=', '>', '>='):
+            out.append((f'{x!r} {op} {y!r}', eval(f'{x!r} {op} {y!r}')))
+            out.append((f'{y!r} {op} {x!r}', eval(f'{y!r} {op} {x!r}')))
+        out.append((f'{y!r} <= {x!r} == {y!r}', eval(f'{y!r} <= {x!r} == {y!r}')))
+        out.append((f'{x!r} - {y!r} == 0', eval(f'{x!r} - {y!r} == 0')))
+    return out
+
+
+def near_failures():
+    """numbers that are nearly equal compare as Python compares them (no tolerance anywhere)"""
+    fails = []
+    t = {'description': 'x', 'amount': 0.0, 'field': None, 'source': None, 'location': None}
+    for text, val in near_items():
+        o = ev(text, t)
+        if not same(o, {'ok': exprs.val_json(val)}):
+            fails.append({'class': 'comparison-of-nearly-equal-numbers', 'expr': text, 'observed': o, 'required': {'ok': exprs.val_json(val)}, 'txn': RC.jtxn(t)})
+    for x, y in NEAR:
+        tt = dict(t, amount=float(x))
+        for text, val in ((f'amount == {y!r}', float(x) == y), (f'amount != {y!r}', float(x) != y), (f'amount <= {y!r}', float(x) <= y),
+                          (f'amount < {y!r} or amount == {y!r}', float(x) < y or float(x) == y)):
+            o = ev(text, tt)
+            if not same(o, {'ok': exprs.val_json(val)}):
+                fails.append({'class': 'comparison-of-nearly-equal-numbers', 'expr': text, 'observed': o, 'required': {'ok': exprs.val_json(val)}, 'txn': RC.jtxn(tt)})
+    return fails
+
+
 def reference_failures(txn):
     """dates, date parts and comprehension-style constructs against Python's own answer."""
     fails = []
@@ -276,9 +521,22 @@ def run(ctx):
         t_lit = {'description': r.choice(LITERAL_DESCRIPTIONS), 'amount': 1.0, 'field': None, 'source': None, 'location': None}
         p1, p2 = r.choice(LITERALS), r.choice(LITERALS)
         sc_items.append((r.choice([f'contains("{p1}")', f'startswith("{p1}")', f'anyof("{p1}", "{p2}")', f'"{p1}" in description']), t_lit, None, ROWS, 'literal'))
+    for text, vs, _ in resolution_items():
+        sc_items.append((text, evalcorr.BASE_TXN, vs, ROWS, 'resolution'))
+    for text, _ in near_items():
+        sc_items.append((text, evalcorr.BASE_TXN, None, ROWS, 'near'))
     n5, dis5, st5 = evalcorr.run_stream(sc_items, root=False)
     ctx.obligation('correspondence:guarded partial operands (short-circuit) and literal text arguments', 'correspondence', not dis5,
                    cases=n5, error=json.dumps(dis5[0], default=str)[:1500] if dis5 else None)
+    # identifiers respelled over whole trees (Props/C04 `mapNames_case`, `same_lowered_names`)
+    nc_fail, nc_dis, nc_tree, nc_stats = ([], [], [], {}) if ctx.replay else name_case_run(r, name_case_items(r, ctx.quick))
+    if not ctx.replay:
+        ctx.obligation('correspondence:Expr.mapNames-vs-ast.NodeTransformer over Name.id / Attribute.attr (tree against tree: upper, lower, per-identifier table)',
+                       'correspondence', not nc_tree, cases=nc_stats['trees'], error=json.dumps(nc_tree[0], default=str)[:1500] if nc_tree else None)
+        ctx.obligation('correspondence:respelled identifiers at every position (binders, walrus targets, functions, methods, attributes), TransactionEvaluator-vs-Expr.eval',
+                       'correspondence', not nc_dis, cases=nc_stats['model_vs_impl'], error=json.dumps(nc_dis[0], default=str)[:1500] if nc_dis else None)
+        ctx.notes['name_case'] = nc_stats
+        prop_fail.extend(nc_fail)
     # how constant are the generated conditions?
     const = total = 0
     for text, txn, variables, ds, label in items[:400]:
@@ -300,6 +558,9 @@ def run(ctx):
             o = ev(ce['expr'], t, SC_VARS)
             got = 'error' if 'ok' not in o else ('true' if as_bool(o)['ok']['v'] else 'false')
             if got != ce['required']:
+                prop_fail.append(ce)
+        elif ce.get('class') == 'name-case':
+            if name_case_replay(ce):
                 prop_fail.append(ce)
         elif 'lhs' in ce:
             t = RC.untxn(ce['txn'])
@@ -325,14 +586,17 @@ def run(ctx):
         for _ in range(40 if ctx.quick else 1500):
             prop_fail.extend(short_circuit_failures(r, GR.gen_txn(r), 10))
             nl += 10
+        prop_fail.extend(resolution_failures(GR.gen_txn(r)))
+        prop_fail.extend(near_failures())
         prop_fail.extend(literal_failures(r, 150 if ctx.quick else 5000))
         nl += 150 if ctx.quick else 5000
         for t in (evalcorr.BASE_TXN, {'description': '', 'amount': 0.0, 'field': None, 'source': None, 'location': None},
                   {'description': 'x', 'amount': -0.01, 'date': datetime.date(2024, 12, 31), 'field': {}, 'source': '', 'location': ''},
                   {'description': 'Jan', 'amount': 0.01, 'date': datetime.date(2025, 1, 1), 'field': None, 'source': 'S', 'location': None}):
             prop_fail.extend(reference_failures(t))
-    ctx.cov['evaluations'] = n1 + n2 + n5 + nl
-    ctx.cov['traces_validated_against_impl'] = n1 + n2 + n5
+    ncn = nc_stats.get('model_vs_impl', 0)
+    ctx.cov['evaluations'] = n1 + n2 + n5 + nl + 2 * ncn
+    ctx.cov['traces_validated_against_impl'] = n1 + n2 + n5 + ncn
     ctx.cov['distinct_nontrivial'] = len({i[0] for i in items}) + len({i[0] for i in small})
     ctx.cov['exhaustive'] = False
     ctx.cov['rule'] = ('type-directed random expressions (bool / num / str; literals drawn from the transaction\'s own words so that '
@@ -340,7 +604,11 @@ def run(ctx):
                        '≤ 2) over a 12-leaf grammar × 3 boundary transactions, compared model vs real evaluator; then the laws of the '
                        'reference as metamorphic relations on the real evaluator and Python\'s own comprehensions as the reference answer; guards in front of partial '
                        'operands (false-guard and P = False, true-guard or P = True, P first = error) and contains/startswith/anyof/in on text full of regex '
-                       'metacharacters against Python\'s own `in`/startswith, both also run model-vs-implementation. '
+                       'metacharacters against Python\'s own `in`/startswith; user variables named like primitives / data sources (resolution order) and '
+                       'comparisons of nearly equal numbers against Python\'s own — all also run model-vs-implementation. '
+                       "identifiers: every Name.id / Attribute.attr of hand-written expressions covering each identifier position + the random and small streams is "
+                       "respelled (upper, lower, a random spelling per identifier, a random spelling per occurrence) — implementation alone must not change its answer, "
+                       "model = implementation on the respelled tree, and the model's `Expr.mapNames` = the Python transformer tree against tree. "
                        'distinct_nontrivial = distinct expression texts evaluated')
     ctx.notes['outcomes_random'] = st1['outcomes']
     ctx.notes['outcomes_small'] = st2['outcomes']
@@ -353,8 +621,13 @@ def run(ctx):
         for _ in range(4000):
             out.extend(law_failures(r, GR.gen_txn(r), None, ROWS))
             out.extend(short_circuit_failures(r, GR.gen_txn(r), 3))
+            if not out and _ % 50 == 0:
+                out.extend(name_case_run(r, [(t, evalcorr.BASE_TXN, NAME_VARS, ROWS, 'positions') for t in NAME_POSITIONS] +
+                                         list(evalcorr.random_items(r, 100, ill=0.0, depth=3)))[0])
             if not out and _ % 10 == 0:
                 out.extend(literal_failures(r, 5))
+            if not out and _ == 0:
+                out.extend(resolution_failures(GR.gen_txn(r)) + near_failures())
             if out:
                 break
         ctx.cov['evaluations'] += 4000
@@ -367,7 +640,7 @@ def run(ctx):
                     required='and/or/not Boolean with left-to-right short-circuit; chain = conjunction of links; ==/!=/in and the match '
                              'functions ignore ASCII letter case; dates compare against ISO strings; month/year/day/weekday are those of the date; '
                              '÷0 and %0 give 0; comprehensions, any/all/sum/len/next and := behave like the Python construct; logically '
-                             'equivalent rewritings never change the result')
+                             'equivalent rewritings and the letter case of function, variable, attribute and method names never change the result')
     return ctx.finish(extra_trusted=[
         'the laws are proved on the model Expr.eval; the model is tied to TransactionEvaluator by differential runs (this check and C08\'s exhaustive table)',
         'regex case-insensitivity is a law of the regex oracle (re.IGNORECASE), exercised on CPython, not proved',
